@@ -97,15 +97,17 @@ def setitem_worker(job):
         ind = np.array(sorted(set(prng.randrange(-n, n) % n for _ in range(prng.randrange(1, 3)))), dtype=np.int64)
         if prng.random() < 0.5:
             ind = ind - n
+        idt = prng.choice(["int64", "int64", "int32", "int8", "int16"] + ([] if (ind < 0).any() else ["uint8", "uint16", "uint32", "uint64"]))
+        ind = ind.astype(idt)
         kind, v = upd_value(())
         if isinstance(v, np.ndarray) and v.ndim:
             v = v.reshape(-1)[:1].reshape(())
-        rec["params"] = {"indices": ind.tolist(), "update": kind}
+        rec["params"] = {"indices": ind.tolist(), "index_dtype": idt, "update": kind}
         def nd(a, ii):
             t = a.copy(); t[ii] = v; return t
         def ref(xx):
             t = xx.copy(); t[ind] = v; return t
-        inputs, dts = [x, ind], [dtype, "int64"]
+        inputs, dts = [x, ind], [dtype, idt]
     else:
         if base in ("utf8", "bool"):
             rec["skip"] = True; return rec
@@ -323,7 +325,7 @@ def run(ctx: common.Ctx):
     setitemtie.run(ctx, 150 if quick else 3000)
     # graph-level tie: coordinate grid + index + Expand + ScatterND (Model/TGraphScatter.setitemGraph; Props/C09Scatter.lean)
     from .. import scattertie
-    scattertie.run(ctx, 200 if quick else 5000, label="setitem", kinds=("setitem", "setitem_mask"))
+    scattertie.run(ctx, 120 if quick else 3000, label="setitem", kinds=("setitem", "setitem", "setitem_mask"))
     sjobs = [(fn, d, m) for fn in list(PURE_CALLS) + list(NO_COPY) for d in sd for m in ("eager", "lazy")]
     rows = tables.pmap(sharing_row, sjobs, chunk=16, strict=True)
     table = []
